@@ -27,30 +27,43 @@ def FUEL := 200
 
 def pstate (s : String) : PState := (PState.ofCode s.toNat!).getD .unknown
 
-def action (rest : List String) : Option (M Unit) :=
+def resOr (r : Res Proc) (x : Proc) : Proc := match r with | .ok y => y | .err _ => x
+
+def eventOp (i p : Nat) (s : PState) (ex : Bool) (et lt : Nat) (dis : Option Bool) : M Unit := do
+  -- Context.on_process_state_event: accepted from CHECKED / RUNNING instances, about a process known on the instance
+  if acceptsEvents (← get) i then
+    let x ← proc p
+    if (getInfo x.infos i).isSome then
+      setProc p (resOr (updateInfo x i s ex et dis lt) x)
+      starterOnEvent FUEL p i
+      stopperOnEvent FUEL p i
+
+def action (rest : List String) : Option (M String) :=
   match rest with
   | ["info", i, p, st, ex, et, lt, dis] => some (do
-      -- add_info (snapshot)
+      -- add_info (handshake snapshot)
       let x ← proc p.toNat!
-      let s := pstate st
-      let x1 := { x with infos := setInfo x.infos i.toNat! { state := s, expected := s2b ex, ltime := lt.toNat!, etime := et.toNat!,
-                                                             nowm := et.toNat!, disabled := s2b dis },
-                         forced := none }
-      setProc p.toNat! (updateStatusT x1 i.toNat! s))
+      setProc p.toNat! (resOr (addInfo x i.toNat! (pstate st) (s2b ex) et.toNat! (s2b dis) lt.toNat!) x)
+      return "")
   | ["event", i, p, st, ex, et, lt] => some (do
+      eventOp i.toNat! p.toNat! (pstate st) (s2b ex) et.toNat! lt.toNat! none; return "")
+  | ["event", i, p, st, ex, et, lt, dis] => some (do
+      eventOp i.toNat! p.toNat! (pstate st) (s2b ex) et.toNat! lt.toNat! (some (s2b dis)); return "")
+  | ["startapp", a, strat] => some (do startApplication FUEL a.toNat! (Strategy.ofCode strat.toNat!); return "")
+  | ["tick", i] => some (do modify fun w => { w with counter := w.counter.set i.toNat! (w.counter.getD i.toNat! 0 + 1) }; return "")
+  | ["check"] => some (do starterCheck FUEL; stopperCheck FUEL; return "")
+  | ["stopapp", a] => some (do stopApplication FUEL a.toNat!; return "")
+  | ["restartapp", a, strat] => some (do restartApplication FUEL a.toNat! (Strategy.ofCode strat.toNat!); return "")
+  | ["lose", i] => some (do
+      let f ← loseInstance FUEL i.toNat!
+      return s!" failed=[{",".intercalate (f.map toString)}]")
+  | ["inst", i, k] => some (do
+      modify fun w => { w with instRunning := w.instRunning.set i.toNat! (k == "2"), instChecked := w.instChecked.set i.toNat! (k == "1") }
+      return "")
+  | ["disable", i, p, dis] => some (do
+      disableProcess i.toNat! p.toNat! (s2b dis)
       let x ← proc p.toNat!
-      let s := pstate st
-      let dis := match getInfo x.infos i.toNat! with | some v => v.disabled | none => false
-      let x1 := { x with infos := setInfo x.infos i.toNat! { state := s, expected := s2b ex, ltime := lt.toNat!, etime := et.toNat!,
-                                                             nowm := et.toNat!, disabled := dis }, forced := none }
-      setProc p.toNat! (updateStatusT x1 i.toNat! s)
-      starterOnEvent FUEL p.toNat! i.toNat!
-      stopperOnEvent FUEL p.toNat! i.toNat!)
-  | ["startapp", a, strat] => some (startApplication FUEL a.toNat! (Strategy.ofCode strat.toNat!))
-  | ["tick", i] => some (modify fun w => { w with counter := w.counter.set i.toNat! (w.counter.getD i.toNat! 0 + 1) })
-  | ["check"] => some (do starterCheck FUEL; stopperCheck FUEL)
-  | ["stopapp", a] => some (stopApplication FUEL a.toNat!)
-  | ["restartapp", a, strat] => some (restartApplication FUEL a.toNat! (Strategy.ofCode strat.toNat!))
+      return s!" dis={match getInfo x.infos i.toNat! with | some v => (if v.disabled then "1" else "0") | none => "-"}")
   | _ => none
 
 /-- the requests the implementation emitted: the bracketed list after `out=[` -/
@@ -101,7 +114,10 @@ def beginStop (w0 : W) (j : Judge) (a : Nat) : Judge :=
 /-- fold the monitor over one operation: `w0` world before, `w1` world after, `reqs` what the implementation emitted -/
 def judgeOp (w0 w1 : W) (j : Judge) (rest : List String) (reqs : List Req) (starting : Bool) : Judge × List String :=
   let (j0, pre) : Judge × List String := match rest with
-    | ["event", i, p, st, ex, _, _] => (onEvent w1 j p.toNat! i.toNat! (pstate st) (s2b ex), [])
+    | "event" :: i :: p :: st :: ex :: _ =>
+      if acceptsEvents w0 i.toNat! && ((pr w0 p.toNat!).infos.get? i.toNat!).isSome
+      then (onEvent w1 j p.toNat! i.toNat! (pstate st) (s2b ex), []) else (j, [])
+    | ["lose", i] => onLose w1 j i.toNat!
     | ["restartapp", a, _] =>
       if hasRunningProcesses w0 a.toNat! then (beginStop w0 j a.toNat!, []) else (j, [])
     | ["stopapp", a] => (beginStop w0 j a.toNat!, [])
@@ -118,7 +134,7 @@ def stepLine (d : D) (line : String) : D × String :=
   match words (parts.getD 0 "") with
   | ["world", ninst, me, nodes, running] => lift
     ({ ninst := ninst.toNat!, me := me.toNat!, node := parseNatList nodes, instRunning := (parseNatList running).map (· == 1),
-       counter := List.replicate ninst.toNat! 0, pcfg := [], acfg := [], procs := [] }, "ok")
+       instChecked := List.replicate ninst.toNat! false, counter := List.replicate ninst.toNat! 0, pcfg := [], acfg := [], procs := [] }, "ok")
   | ["app", sseq, strat, stseq] => lift
     ({ w with acfg := w.acfg ++ [{ startSeq := sseq.toNat!, strategy := Strategy.ofCode strat.toNat!, stopSeq := stseq.toNat! }] }, "ok")
   | ["proc", app, sseq, req, we, load, sf, idents, startsecs, stseq, stopwait] =>
@@ -142,13 +158,13 @@ def stepLine (d : D) (line : String) : D × String :=
     match action rest with
     | none => (d, "bad-op")
     | some a =>
-      let (_, w') := a.run w
+      let (extra, w') := a.run w
       let implObs := parts.getD 1 ""
       let (j', verdicts0) := judgeOp w w' d.j rest (parseReqs implObs) ((implObs.splitOn "starting=true").length > 1)
       -- the implementation dropped a job object while its group was being processed (root cause of the untracked requests):
       -- what is emitted in such an operation is attributed to that root cause
       let verdicts := if (implObs.splitOn "orphan=1").length > 1 then ["C10-start-request-untracked:job-dropped-while-processing"] else verdicts0
-      ({ w := w', j := j' }, obs w' ++ " | " ++ (if verdicts.isEmpty then "J:ok" else "J:" ++ ";".intercalate verdicts))
+      ({ w := w', j := j' }, obs w' ++ extra ++ " | " ++ (if verdicts.isEmpty then "J:ok" else "J:" ++ ";".intercalate verdicts))
   | _ => (d, "bad-op")
 
 def main : IO Unit := runLoop (default : D) stepLine
